@@ -20,7 +20,7 @@ PLAN = dict(
           "and calculate_checksum with an oracle that computes digests with the RustCrypto crates directly "
           "and has its own '$NetBSD' filter. Non-trivial = a change was applied, or the file is a patch "
           "containing '$NetBSD', or the recorded name has a directory part; distinct = distinct (label, path, "
-          "content, records) by 64-bit fingerprint. Later additions: the Distinfo is also used while it grows (lookups and verifications between insert() calls, on the object and on clones; the final answers are compared); single-line patch contents longer than 8 KiB .. 1 MiB with the marker straddling that offset or late; markers directly behind a proper prefix of themselves; the Size line of a record in front of, among or behind its checksum lines. Round 7: main names from the clauses of the classification rule and its table; one case in four looks up a symbolic link to a regular file with the content. Round 8: one case in eight records the file under the absolute path it is looked up by."),
+          "content, records) by 64-bit fingerprint. Later additions: the Distinfo is also used while it grows (lookups and verifications between insert() calls, on the object and on clones; the final answers are compared); single-line patch contents longer than 8 KiB .. 1 MiB with the marker straddling that offset or late; markers directly behind a proper prefix of themselves; the Size line of a record in front of, among or behind its checksum lines. Round 7: main names from the clauses of the classification rule and its table; one case in four looks up a symbolic link to a regular file with the content. Round 8: one case in eight records the file under the absolute path it is looked up by. Round 9: one case in eight (single-threaded engines) looks the file up relative to the working directory (the scenario directory for that case) while the distinfo also records '<name of that directory>/<path>' with another size; patches recorded below directories whose components are named like patches."),
     assumptions=[
         "the RustCrypto digests called directly are correct (C13 compares pkgsrc::digest with hashlib)",
         "'the file with every line containing $NetBSD removed' = split on LF, drop lines containing '$NetBSD', keep the others with their LF; patch contents whose last kept line lacks its LF are not generated",
